@@ -64,6 +64,7 @@ from harness.props import c16_sched
 SHARED = {"_pmap", "_pids_reused"}
 F_L19 = "C04-flagged-pid-skipped"
 F_POP = "C04-reused-pop-race"
+F_OVERLAP = "C04-overlap-identity"
 
 
 class Drift(Exception):
@@ -496,6 +497,23 @@ def judge(prog, run):
                         % ([p for p, _ in seqs[0]], listed), None))
         elif len(seqs) > 1 and seqs[1] != seqs[0]:
             bad.append(("two sequential iterations in a row yielded different objects: %r then %r" % (seqs[0], seqs[1]), None))
+    # "found recycled by is_running() -> replaced by a fresh object" (seeded round 5): a warm object on which is_running()
+    # answered False during the run while a process holds its PID at the end (the number was recycled) must not be handed
+    # out by ANY of the sequential iterations after the threads — whatever the other thread did meanwhile (an iteration in
+    # flight republishing its private table, cache_clear()). Two iterating threads: region of C04-overlap-identity (the
+    # stale entry is republished after the other iteration consumed the flag).
+    warm_obj = dict(run.get("pre", ()))
+    stale = {warm_obj[e[2]]: e[2] for e in run.get("glog", ())
+             if e[0] == "is_running" and e[3] is False and e[2] in warm_obj and e[2] in listed}
+    if stale and final:
+        iterating = sum(1 for th in prog["threads"] if any(it[0] == "iter" for it in th))
+        for n, seq in enumerate(final):
+            again = sorted(p for p, c in seq if c in stale)
+            if again:
+                bad.append(("stale object kept: is_running() found PID(s) %r recycled during the run, yet sequential iteration "
+                            "number %d after the threads still yields the very same object(s) for them" % (again, n + 1),
+                            F_OVERLAP if iterating >= 2 else None))
+                break
     if not run["flagged_before_final"]:
         for pid, first_time, alive in run.get("final_check", ()):
             if first_time and alive is not True and pid in listed:
@@ -533,6 +551,11 @@ PROGS = [
     ("clear", {"setup": BASE, "warm": True, "threads": [[["iter"]], [["clear"]]]}),
     ("flag", {"setup": BASE, "warm": True, "after_warm": [_ex(5), _sp(5, 999)],
               "threads": [[["iter"]], [["is_running", 5], ["iter"]]]}),
+    # seeded round 5: one thread iterates, the other finds PID 5 recycled and clears the cache (either order)
+    ("flagclear", {"setup": BASE, "warm": True, "after_warm": [_ex(5), _sp(5, 999)],
+                   "threads": [[["iter"]], [["is_running", 5], ["clear"]]]}),
+    ("clearflag", {"setup": BASE, "warm": True, "after_warm": [_ex(5), _sp(5, 999)],
+                   "threads": [[["iter"]], [["clear"], ["is_running", 5]]]}),
     ("flagged2", {"setup": BASE, "warm": True, "after_warm": [_ex(5), _sp(5, 999)], "flag": [5],
                   "threads": [[["iter"]], [["iter"]]]}),
     # attrs: `proc.info = proc.as_dict(...)` runs between add(pid) and the yield. Cold cache: every PID is NEW;
